@@ -6,7 +6,7 @@ import json
 import random
 import sys
 
-from spverif.core.util import attempt, exc_sig, rand_bytes, rand_name
+from spverif.core.util import attempt, exc_sig, rand_bytes, rand_name, hist_len
 from spverif.ref import cfdp as R
 from spverif.ref import ccsds as H
 from . import _cfdp as C
@@ -462,7 +462,7 @@ def run(ctx):
                 p["start"] &= 0xFFFFFFFF
                 p["end"] &= 0xFFFFFFFF
                 p["segments"] = None if p["segments"] is None else [[a & 0xFFFFFFFF, b & 0xFFFFFFFF] for a, b in p["segments"]]
-        steps = [rand_step(r, kind, cfg, p) for _ in range(r.randrange(1, MAX_STEPS + 1))]
+        steps = [rand_step(r, kind, cfg, p) for _ in range(hist_len(r, 1, MAX_STEPS + 1))]
         k_pdu_history(ctx, kind, cfg, p, steps, start=r.choice(("constructed", "constructed", "decoded")), conf_dir=r.choice((None, 0, 1)))
     # caller inputs of the PDU kinds without setters
     for j in range(ctx.n(200, 10_000)):
@@ -471,7 +471,7 @@ def run(ctx):
         k_pdu_history(ctx, kind, cfg, C.rand_params(r, kind, cfg), [], start="constructed")
     for j in range(ctx.n(600, 60_000)):
         which = "tc" if j & 1 else "tm"
-        k_pus_history(ctx, which, ctx.seed * 1_000_003 + ctx.shard[0] * 100_003 + j, r.randrange(1, MAX_STEPS + 1), start=r.choice(("constructed", "packed", "decoded")))
+        k_pus_history(ctx, which, ctx.seed * 1_000_003 + ctx.shard[0] * 100_003 + j, hist_len(r, 1, MAX_STEPS + 1), start=r.choice(("constructed", "packed", "decoded")))
     for j in range(ctx.n(400, 40_000)):
         k_uslp_history(ctx, ctx.seed * 1_000_003 + ctx.shard[0] * 100_003 + j, r.randrange(1, 6))
 
